@@ -107,6 +107,27 @@ CurlBzeta(pt) == RSub(DBR(pt).z, DBZ(pt).r)
 DeltaStarOverR(pt) == RDiv(RSub(RAdd(Q(pt.pRR), Q(pt.pZZ)), RDiv(Q(pt.pR), Q(pt.R))), Q(pt.R))
 
 --------------------------------------------------------------------------
+(* curl(b/B) (C07, curvature_type "curl(b/B)"): b/B = B/B^2 in cylindrical components (R, Z, zeta) of an axisymmetric field.       *)
+(* CurlDef differentiates the dual numbers; CurlCode is the closed form of MeshRegion.calcCurvature, transcribed.  Both need B # 0. *)
+DA(pt) == LET b2 == DB2(pt) IN [R |-> DDiv(DBR(pt), b2), Z |-> DDiv(DBZ(pt), b2), zeta |-> DDiv(DBzeta(pt), b2)]
+CurlDef(pt) ==
+  LET a == DA(pt) IN
+  [R |-> RNeg(a.zeta.z),                                      \* -d(A_zeta)/dZ
+   Z |-> RAdd(a.zeta.r, RDiv(a.zeta.v, Q(pt.R))),             \* (1/R) d(R A_zeta)/dR
+   zeta |-> RSub(a.R.z, a.Z.r)]                               \* d(A_R)/dZ - d(A_Z)/dR
+CurlCode(pt) ==
+  LET c == Code(pt)
+      b2 == c.B2
+      b4 == RMul(b2, b2) IN
+  [R |-> RAdd(RNeg(RDiv(c.dBzetadZ, b2)), RMul(RDiv(c.Bzeta, b4), c.dB2dZ)),
+   Z |-> RSub(RAdd(RDiv(c.Bzeta, RMul(Q(pt.R), b2)), RDiv(c.dBzetadR, b2)), RMul(RDiv(c.Bzeta, b4), c.dB2dR)),
+   zeta |-> RAdd(RSub(RSub(RDiv(c.dBRdZ, b2), RMul(RDiv(c.Bp_R, b4), c.dB2dZ)), RDiv(c.dBZdR, b2)), RMul(RDiv(c.Bp_Z, b4), c.dB2dR))]
+\* contravariant x-component: curl(b/B) . grad(psi)
+CurlXDef(pt) == LET c == CurlDef(pt) IN RAdd(RMul(c.R, Q(pt.pR)), RMul(c.Z, Q(pt.pZ)))
+CurlNames == <<"curl_R", "curl_Z", "curl_zeta", "curl_x">>
+CurlRec(pt) == LET c == CurlDef(pt) IN [curl_R |-> c.R, curl_Z |-> c.Z, curl_zeta |-> c.zeta, curl_x |-> CurlXDef(pt)]
+
+--------------------------------------------------------------------------
 (* dispatch on the kinds of the two arguments (scalar, array, MultiLocationArray) *)
 Dispatch(a1, a2) == IF a1 = "mla" /\ a2 = "mla" THEN "mla"
                     ELSE IF a1 = "mla" \/ a2 = "mla" THEN "error"
